@@ -322,7 +322,7 @@ type c07Cell struct {
 	override         int
 	disableOv        bool // disable_registrar_overrides
 	dup              int  // what the second message of the session is
-	hand             bool // delivery: false = through the station's ingest worker (startIngestThread), true = parseRegMessage + ingestRegistration called directly (three quarters of the big decision table: it is cheaper)
+	hand             bool // delivery: false = through the station's ingest worker (startIngestThread), true = parseRegMessage + ingestRegistration called directly (most of the big decision table: it is cheaper)
 }
 
 // second returns the second message of the session
@@ -2074,6 +2074,11 @@ func TestVerifC07(t *testing.T) {
 		return s
 	}
 	ncell := 0
+	// the big decision table: every workerEvery-th cell goes through the ingest worker, the others are delivered directly
+	workerEvery := 4
+	if thorough {
+		workerEvery = 16
+	}
 	run := func(st c07Station, c c07Cell) {
 		ncell++
 		m, i := w.runCell(st, c, w.secretFor(r, c))
@@ -2391,7 +2396,7 @@ func TestVerifC07(t *testing.T) {
 	for _, st := range []c07Station{{e4: true, e6: true, share: true}, {e4: true, e6: true}, {e4: true, e6: false, share: true}, {e4: true, e6: true, share: true, block: 2}} {
 		for _, src := range []int{1, 0, 2} {
 			for _, sup := range [][2]bool{{true, true}, {true, false}} {
-				if nReal >= vlib.Budget(2, 10) {
+				if nReal >= vlib.Budget(2, 6) {
 					continue
 				}
 				nReal++
@@ -2423,7 +2428,7 @@ func TestVerifC07(t *testing.T) {
 								for _, cv := range pick(2, 3) {
 									for _, ov := range pick(3, 5) { // (the table uses the first five overrides)
 										run(st, c07Cell{payload: true, v4s: sup[0], v6s: sup[1], registrant: rg, source: src, transport: tr, gen: g, libver: 4, prescanned: ps, covert: cv, override: ov,
-											dup: ncell % c07DupKinds, hand: ncell%4 != 0})
+											dup: ncell % c07DupKinds, hand: ncell%workerEvery != 0})
 									}
 								}
 							}
@@ -2445,7 +2450,7 @@ func TestVerifC07(t *testing.T) {
 									for cv := 0; cv < 2; cv++ {
 										for ov := 0; ov < 3; ov++ {
 											run(st, c07Cell{payload: true, v4s: sup[0], v6s: sup[1], registrant: rg, source: src, transport: tr, gen: g, libver: 4, prescanned: ps, covert: cv, override: ov,
-												dup: ncell % c07DupKinds, hand: ncell%4 != 0})
+												dup: ncell % c07DupKinds, hand: ncell%workerEvery != 0})
 										}
 									}
 								}
@@ -2547,7 +2552,7 @@ func c07Replay(w *c07World, path string) {
 					continue
 				}
 				fmt.Printf("REPLAY message %d: session=%d liveness-verdict=(%v, %v) peer=%q payload=%v v4support=%v v6support=%v registrant=%s source=%s transport=%s generation=%d libver=%d prescanned=%v covert=%q override=%s disable_registrar_overrides=%v\n",
-					k+1, mm.sess, mm.live, c07VerdictErr(mm.live, mm.lerr), c07PeerModes[mm.peer], cc.payload, cc.v4s, cc.v6s, c07Registrants[cc.registrant].name, c07Sources[cc.source], c07Transports[cc.transport].name, c07Gens[cc.gen].gen, cc.libver, cc.prescanned, c07Coverts[cc.covert].addr, c07Overrides[cc.override].name, cc.disableOv)
+					k+1, mm.sess, map[bool]string{false: fmt.Sprint(mm.live), true: "whatever the real tester answers"}[real], map[bool]string{false: fmt.Sprint(c07VerdictErr(mm.live, mm.lerr)), true: "see the P event"}[real], c07PeerModes[mm.peer], cc.payload, cc.v4s, cc.v6s, c07Registrants[cc.registrant].name, c07Sources[cc.source], c07Transports[cc.transport].name, c07Gens[cc.gen].gen, cc.libver, cc.prescanned, c07Coverts[cc.covert].addr, c07Overrides[cc.override].name, cc.disableOv)
 			}
 			fmt.Println("REPLAY model-line:", m)
 			for k, a := range strings.Split(i, "|") {
